@@ -44,7 +44,7 @@ RULE = ('sequences of 1-10 blocks on systems drawn from 8 raster families (Sieme
         'delays, all raster-aligned (stream valid: report must be empty, write() must not warn). Fault streams overwrite one or '
         '2-4 timing fields: +0.5 / +0.3 / +2e-4 / +1e-5 raster (must be reported), +1e-9 raster (must not), ADC delay on the '
         'ADC but not the RF raster, negative delays, delays below the dead time, events built for a system with shorter dead '
-        'times / ring-down, stored block duration cut, extended or moved off the block raster, a field or the block duration moved by one step of ANOTHER raster of the system, repeated blocks (same events, other padding, valid or off raster), seconds-long delays (1e5-3e6 block rasters) with tiny offsets; 30% of the RF/ADC dead and ring-down times are NOT on the RF raster (delays one aligned step below them must be reported). Object histories (110 quick): one Sequence object goes through add_block / set_block / read() of another (mostly invalid) file / remove_duplicates(in_place) / assignment of another system / repeated check_timing, and after every step the report must equal the oracle for the CURRENT content of the object. Oracle: TimingValid/Violates '
+        'times / ring-down, stored block duration cut, extended or moved off the block raster, a field or the block duration moved by one step of ANOTHER raster of the system, repeated blocks (same events, other padding, valid or off raster), seconds-long delays (1e5-3e6 block rasters) with tiny offsets; 30% of the RF/ADC dead and ring-down times are NOT on the RF raster (delays one aligned step below them must be reported). A many-violation stream repeats faulty blocks 4-40 times (tens to hundreds of entries); for every case check_timing(print_errors=True) and a following plain call must return the same (ok, report) as the first call. Object histories (110 quick, block cache on and off): read() is called with remove_duplicates / detect_rf_use on and off and the report of the used object must equal that of a fresh object reading the same file; one Sequence object goes through add_block / set_block / read() of another (mostly invalid) file / remove_duplicates(in_place) / assignment of another system / repeated check_timing, and after every step the report must equal the oracle for the CURRENT content of the object. Oracle: TimingValid/Violates '
         'recomputed with exact Fractions from the decoded blocks must equal the multiset of (block,event,field,kind) returned '
         'by seq.check_timing(); every injected fault must appear. Correspondence: the extracted Coq model must return the same '
         'ordered report and the same calc_duration per block. non-trivial = at least one error reported or >= 3 event kinds')
